@@ -10,6 +10,21 @@ CLAIMS = {
  "C02": dict(text="Lean 4 theorems over every history of issue/exchange/sweep/delete-by-booking/clock operations: at most one successful exchange per code (hence for every interleaving of atomic concurrent exchanges), no admission after TTL whether swept or not, no admission after delete-by-booking, frame lemmas, distinct codes; model tied to internal/ttlcode by differential runs under a virtual clock incl. real-goroutine race blocks, plus an independent oracle.",
              note=TB + "uuid freshness/unguessability assumed (tested for format/distinctness only); store methods atomic (C12); sweeper modelled as an any-time operation.",
              tech="Lean 4 proof (monotone dead/fresh invariants by induction over histories) + model/implementation correspondence", ref="DESIGN.md 6 C02"),
+ "C03": dict(text="Lean 4 theorems for every event history of the hub model (register/unregister/inbound/drain at any cut point, any topics/buffers): every message delivered to a member was sent on exactly the member's topic string and not by itself; exact one-broadcast delivery rule in both directions; unique names; plus the path scanners' topic class. Tied to internal/crossbar by driving the real Hub.run goroutine event by event (membership, queue lengths, cancel-channel bookkeeping compared after every event) and the real path functions, with an independent reference oracle.",
+             note=TB + "names unique (uuid) modelled as a counter; pumps' queue side emulated in-package (real pumps: loopback mode); websocket framing outside the model.",
+             tech="Lean 4 proof (hub invariant by induction over event histories) + model/implementation correspondence", ref="DESIGN.md 6 C03"),
+ "C04": dict(text="Lean 4 theorems: an inbound message of a non-writer changes nothing in any hub state; over every history the broadcast log grows only through writers; nothing is ever written to a non-reader's socket; capabilities never change after registration; admission needs read or write and the capabilities are functions of exactly those two strings. Tied to the code by the hub correspondence run with all scope subsets and an oracle for relayed non-writers / served non-readers.",
+             note=TB + "scope derivation at admission and the real pumps' tests are tied over loopback (mode relay) where built; here the pumps' queue side is emulated.",
+             tech="Lean 4 proof (hub invariant + step lemmas) + model/implementation correspondence", ref="DESIGN.md 6 C04"),
+ "C05": dict(text="Lean 4 theorems for every event history and every frame cut point: a reader's frames are consecutive blocks of whole delivered messages; frames ++ queued bytes = bytes of delivered messages; delivered = exactly the hub-ordered subsequence of messages sent since join on its topic by others (complete, no duplicates, per-writer FIFO); a full reader is dropped in that very step, never skipped, and only for its own backlog. Tied to the code by the hub correspondence run (frames compared byte for byte) with buffers 1..8 and overflowing readers.",
+             note=TB + "partial socket writes / TCP back-pressure timing are not exhibited by the model; frame cut points are nondeterministic and universally quantified.",
+             tech="Lean 4 proof (ghost-log invariant by induction over event histories) + model/implementation correspondence", ref="DESIGN.md 6 C05"),
+ "C08": dict(text="Lean 4 theorems: under the hub's discipline no history of cancel-channel store operations panics, ParentByChild and the bindings stay mutually consistent, closing a parent closes exactly its children, a deleted child is in neither table; the hub drops a member only for its own full queue and otherwise keeps it (fault confinement); the hub step function is total (no blocking operation in the model of the repaired loop). Tied to the code by comparing the complete chanmap state after every operation on the real store, and by driving the real hub loop with per-event time-outs (a frozen loop is the observation `stuck`).",
+             note=TB + "kernel-level socket faults and memory exhaustion are outside the model; client-fault injection over loopback is covered where mode relay is built.",
+             tech="Lean 4 proof (representation invariant by induction over operation histories) + model/implementation correspondence", ref="DESIGN.md 6 C08"),
+ "C20": dict(text="Lean 4 theorems for every line (all bytes) and every command/event sequence: parse is total and the four line shapes are exclusive; comments are never sent; non-command lines are sent verbatim; delayed and conditional sends carry exactly the stated text, delay, pattern, count, timeout; print/parse round trip for every well-formed command; Check errs iff some line is malformed w.r.t. an explicit decidable grammar; a received line passes iff no filter is set or no deny pattern and some accept pattern matches. Tied to internal/file by differential runs of the real ParseLine/Check/Filter (regexp verdicts for user patterns supplied by the real library in a two-phase protocol).",
+             note=TB + "regexp.Compile/MatchString for user patterns are parameters; the five fixed expressions, ParseDuration and Atoi are modelled by hand and differential-tested.",
+             tech="Lean 4 proof (scanner lemmas, structural induction) + model/implementation correspondence", ref="DESIGN.md 6 C20"),
 }
 def main():
     props = [json.loads(l) for l in open(V + "/properties.jsonl")]
